@@ -66,18 +66,19 @@ int main(int argc, char** argv)
   std::string clause = argv[2];
   const Clause* cl = nullptr; for (const Clause& c : registry()) if (clause == c.id) cl = &c;
   if (!cl) { fprintf(stderr, "harness: unknown clause %s\n", clause.c_str()); return 2; }
-  Ctx ctx; std::string out, kf, argstr, pre; std::vector<std::string> sos;
+  Ctx ctx; std::string out, kf, argstr, pre, kdir; std::vector<std::string> sos;
   for (int i = 3; i < argc; ++i) {
     std::string a = argv[i];
     auto val = [&]() -> std::string { if (i + 1 >= argc) { fprintf(stderr, "missing value for %s\n", a.c_str()); exit(2); } return argv[++i]; };
     if (a == "--tier") ctx.tier = val(); else if (a == "--seed") ctx.seed = strtoull(val().c_str(), 0, 10);
     else if (a == "--worker") ctx.worker = atoi(val().c_str()); else if (a == "--nworkers") ctx.nworkers = atoi(val().c_str());
     else if (a == "--n") ctx.ncases = strtoull(val().c_str(), 0, 10); else if (a == "--out") out = val();
-    else if (a == "--kf") kf = val(); else if (a == "--args") argstr = val(); else if (a == "--pre") pre = val(); else sos.push_back(a);
+    else if (a == "--kf") kf = val(); else if (a == "--args") argstr = val(); else if (a == "--pre") pre = val(); else if (a == "--kdir") kdir = val(); else sos.push_back(a);
   }
   cut_install_handlers();
   for (const std::string& p : sos) { Cut c; std::string err; if (!cut_load(c, p, err)) { fprintf(stderr, "harness: %s\n", err.c_str()); return 2; } ctx.cuts.push_back(c); }
   if (ctx.cuts.empty()) { fprintf(stderr, "harness: no code-under-test objects given\n"); return 2; }
+  if (!kdir.empty()) for (Cut& c : ctx.cuts) { std::string err; if (!cut_load_k(c, kdir, err)) { fprintf(stderr, "harness: %s\n", err.c_str()); return 2; } }
   g_dc.phi = ctx.cuts[0].phi; g_dc.pidiv2 = ctx.cuts[0].pidiv2; g_dc.pidiv4 = ctx.cuts[0].pidiv4;
   if (!kf.empty()) load_kf(ctx, kf);
 
